@@ -119,6 +119,8 @@ pub struct ActorScripts {
     pub fscr: Vec<Effect>,
     #[serde(default)]
     pub iscr: Vec<Effect>,
+    #[serde(default)]
+    pub tscr: Vec<Effect>,
 }
 
 #[derive(Default)]
@@ -353,7 +355,7 @@ impl std::error::Error for ScriptedError {}
 /// Instances spawned by the registry (no scenario entry): one yield in started and in stopped.
 fn service_scripts() -> ActorScripts {
     let y = Effect { e: "yield".into(), n: 0, s: String::new() };
-    ActorScripts { sscr: vec![vec![y.clone()]], pscr: vec![y], fscr: vec![], iscr: vec![] }
+    ActorScripts { sscr: vec![vec![y.clone()]], pscr: vec![y], fscr: vec![], iscr: vec![], tscr: vec![] }
 }
 
 impl<const K: usize> Actor for H<K> {
@@ -399,7 +401,9 @@ impl<const K: usize> Handler<SMsg> for H<K> {
 }
 impl<const K: usize> Handler<Tick> for H<K> {
     async fn handle(&mut self, ctx: &mut Context<Self>, msg: Tick) {
-        self.work(ctx, Desc { m: (msg.timer.clone(), msg.k), scr: vec![], src: "timer" }).await;
+        let me = cur_task();
+        let scr = WORLD.with(|w| w.borrow().scripts.get(&me).cloned().unwrap_or_default().tscr);
+        self.work(ctx, Desc { m: (msg.timer.clone(), msg.k), scr, src: "timer" }).await;
     }
 }
 impl<const K: usize> Handler<()> for H<K> {
